@@ -428,6 +428,14 @@ func init() {
 		st.assume(sImp(sEq(e.Tag, "0"), sEq(f.S, fresh)))
 	})
 	extModels["(*os.File).Close"] = sysCall("close", errOnly)
+	extModels["github.com/mitchellh/copystructure.Copy"] = sysCall("deepcopy", func(r *FnRun, st *State, args []*V, res []*V) {
+		// (copy, err): on success a new object of the same dynamic type whose contents are unconstrained; trace
+		// event sys:deepcopy a0=source a5=tag of copy a6=copy
+		c, e := res[0], res[1]
+		fresh := st.allocRef()
+		st.assume(sImp(sEq(e.Tag, "0"), sAnd(sEq(c.Tag, args[0].Tag), sEq(c.Val, fresh))))
+		st.assume(sImp(sNot(sEq(e.Tag, "0")), sAnd(sEq(c.Tag, "0"), sEq(c.Val, "0"))))
+	})
 	extModels["path/filepath.Glob"] = sysCall("glob", func(r *FnRun, st *State, args []*V, res []*V) {
 		// fresh slice
 		fresh := st.allocRef()
@@ -750,6 +758,16 @@ func init() {
 		extModels["(reflect.Value)."+m] = rv(m)
 	}
 	extModels["(reflect.Value).Index"] = rv("Index")
+	extModels["(reflect.Value).Pointer"] = rv("Pointer")
+	extModels["(reflect.Value).FieldByName"] = rv("FieldByName")
+	extModels["(reflect.Value).Field"] = rv("Field")
+	extModels["(reflect.Value).NumField"] = rv("NumField")
+	extModels["(reflect.Value).MapIndex"] = rv("MapIndex")
+	extModels["(reflect.Value).Interface"] = &model{doc: "the value as an interface: dynamic type uf(reflect.Type, v), value part uf(reflect.Interface, v)", fn: simple(func(r *FnRun, st *State, instr ssa.Instruction, args []*V) *V {
+		r.eng.declare("(declare-fun |uf:reflect.Type| (Int) Int)")
+		r.eng.declare("(declare-fun |uf:reflect.Interface| (Int) Int)")
+		return &V{K: KIface, T: resType(instr), Tag: "(|uf:reflect.Type| " + args[0].S + ")", Val: "(|uf:reflect.Interface| " + args[0].S + ")"}
+	})}
 	extModels["(reflect.Value).Type"] = rv("Type")
 	extModels["reflect.ValueOf"] = rv("ValueOf")
 	extModels["reflect.Indirect"] = rv("Indirect")
